@@ -61,6 +61,17 @@ CLAIMED["C08"] = dict(
     technique="Lean 4 invariant proofs over all continuations + regenerated facts + differential + concurrent conformance",
     ref="DESIGN.md §6 C03/C04/C08")
 
+CLAIMED["C10"] = dict(
+    text="Lean theorems about an interleaving model of Start/Stop/context cancellation/watcher/loop/workers/job goroutines with run generations, for ALL interleavings: Start and Stop idempotent; IsStarted equals the fold of the user calls in call order (C10_isStarted_latest, unconditional after repair ec88e72); cancel of the current run's context and Stop are indistinguishable through IsStarted under every continuation (C10_cancel_eq_stop); after stop;start or cancel;start no stale watcher clears the new run (C10_restart) with proved negative controls for the unguarded watcher and for Start without the pre-stop (the two repaired defects); the WaitGroup counter equals the number of live counted goroutines, so Wait returning means all are gone (C10_wait_sound). Tie: regenerated facts (every go statement is wg-counted except Wait's helper; shapes of Start/stopRun/stop/IsStarted/Wait; ctx passed down to Job.Execute) + scripted and random call sequences on real schedulers in three modes compared with the model's expected flag, restart x300, cancel-restart x200, goroutine dump after Wait.",
+    note="Go channel / RWMutex / context / WaitGroup semantics trusted; goroutine exit latency and the goroutine dump are observed with grace periods",
+    technique="Lean 4 inductive invariants over all interleavings + regenerated structural facts + scenario harness",
+    ref="DESIGN.md §6 C10")
+CLAIMED["C12"] = dict(
+    text="Lean theorems about an interleaving model of the three-way dispatch (inline / rendezvous hand-off to a fixed pool over the unbuffered channel / one goroutine per execution) for ALL reachable states: in-flight <= 1 in blocking mode, = busy workers <= n with WorkerLimit n, n in flight reachable for every n, the loop never waits on a job in unbounded mode (enabledness independent of the in-flight count), a full pool is the only thing that blocks the loop, BlockingExecution ignores WorkerLimit; negative controls (buffered channel, swapped switch order). Tie: regenerated facts (dispatch capacity 0, switch case order and arms, startWorkers guard, worker loop bound and body) + instrumented jobs with in-flight counters and barriers on real schedulers.",
+    note="genuine parallelism needs >= n runnable Ps (16 here): observed by barriers with deadlines, not proved",
+    technique="Lean 4 inductive invariants over all interleavings + regenerated structural facts + barrier harness",
+    ref="DESIGN.md §6 C12")
+
 REASON_PENDING = "check not built yet (build phase in progress); planned per DESIGN.md §6"
 
 m = {
